@@ -32,7 +32,7 @@ def gen_asm(tier, seed):
             add("near-miss", f"x{v} halt\n")
             add("in-comment", f"halt ; {v} r1\n")
             add("in-string", f".stringz \"{v}\"\n")
-    n = 300 if tier == "quick" else 5000
+    n = 300 if tier == "quick" else 20000
     for i in range(n):
         stack = i % 2 == 0
         items = asmgen.gen_program(rnd, stack=stack)
@@ -54,7 +54,7 @@ def gen_vm(tier, seed):
     for tag, body in progs:
         for feat in (0, 1):
             cases.append(C03.case_line(feat, 500, [0x3000] + body, [])); tags.append("vm-" + tag + ("-on" if feat else "-off"))
-    n = 200 if tier == "quick" else 5000
+    n = 200 if tier == "quick" else 20000
     for i in range(n):
         body = C03.prog_random_weighted(rnd)
         if rnd.random() < 0.5:
